@@ -20,7 +20,12 @@ ORDER = {"NoCheck": [], "CheckFirst": ["grad", "jac"], "CheckSecond": ["hess"], 
 class WrongDeriv(Problem):
     """f = x1^2 + x1 x2 + 2 x2^2 + x1;  c1 = x1 + 2 x2 + x1^2/2 - 1;  c2 = x1 x2 - x2   (both = 0)"""
 
-    def __init__(self, errs, fmt, dup=False):
+    MAGS = ({"above": 1.0, "aboveNeg": -1.0, "below": 1e-7},
+            # a second realisation of the spec's classes: 2.5 tolerances off, on entries of size 3..9 (an absolute criterion)
+            {"above": 2.5e-4, "aboveNeg": -2.5e-4, "below": 1e-7})
+
+    def __init__(self, errs, fmt, dup=False, real=0):
+        self.mags = self.MAGS[real]
         self.errs = errs
         self.fmt = fmt
         self.dup = dup      # valid scipy matrices may hold duplicate (unsummed) entries, e.g. after element-wise assembly
@@ -47,7 +52,7 @@ class WrongDeriv(Problem):
         E = np.zeros(shape)
         for e in self.errs:
             if e["which"] == which:
-                E[e["i"] - 1, e["j"] - 1] += {"above": 1.0, "aboveNeg": -1.0, "below": 1e-7}[e["mag"]]
+                E[e["i"] - 1, e["j"] - 1] += self.mags[e["mag"]]
         return E
 
     def obj(self, x):
@@ -68,7 +73,7 @@ class WrongDeriv(Problem):
         return self._mat(H)
 
 
-def observe(flags, errs, fmt, dup=False, reuse=False):
+def observe(flags, errs, fmt, dup=False, reuse=False, real=0):
     calls = []
     orig = dc_mod.deriv_check
 
@@ -78,7 +83,7 @@ def observe(flags, errs, fmt, dup=False, reuse=False):
 
     dc_mod.deriv_check = counting
     try:
-        prob = WrongDeriv([] if reuse else errs, fmt, dup)
+        prob = WrongDeriv([] if reuse else errs, fmt, dup, real)
         params = Params(deriv_check=FLAGS[flags], iteration_limit=0, display_interval=1e9)
         try:
             solver = Solver(prob, params)
@@ -88,7 +93,10 @@ def observe(flags, errs, fmt, dup=False, reuse=False):
                 solver.solve(np.array([-1.0, 0.75]), np.array([0.5, 1.0]))
                 del calls[:]
                 prob.errs = errs
-            solver.solve(np.array([0.5, -0.25]), np.array([1.0, -2.0]))
+            if real:
+                solver.solve(np.array([4.5, -3.25]), np.array([3.0, -6.0]))
+            else:
+                solver.solve(np.array([0.5, -0.25]), np.array([1.0, -2.0]))
             return {"kind": "pass", "ncalls": len(calls)}
         except DerivError as e:
             st = ORDER[flags][len(calls) - 1] if 0 < len(calls) <= len(ORDER[flags]) else "?"
@@ -131,7 +139,8 @@ def main():
             if not chk.thorough and ((k * 2654435761 >> 8) + chk.seed) % 4:      # scattered sample of the case space
                 continue
             errs = [dict(e) for e in sorted(st["cs"]["errs"], key=lambda e: (e["which"], e["i"], e["j"]))] if st["cs"]["errs"] else []
-            obs = observe(st["cs"]["flags"], errs, fmts[k % 3], dup=(k % 8 < 4), reuse=bool((k // 3) % 2))
+            real = ((k * 40503) >> 5) % 2
+            obs = observe(st["cs"]["flags"], errs, fmts[k % 3], dup=(k % 8 < 4), reuse=bool((k // 3) % 2), real=real)
             chk.case((st["cs"]["flags"], tuple((e["which"], e["i"], e["j"], e["mag"]) for e in errs)))
             exp = {"kind": v["kind"]}
             if v["kind"] == "error":
@@ -144,10 +153,10 @@ def main():
                 chk.samples.append({"flags": st["cs"]["flags"], "wrong_entries": errs, "expected": exp, "observed": obs})
             if not ok:
                 chk.kernel_violation(("derivcheck.outcome", exp["kind"], obs["kind"]),
-                                     {"flags": st["cs"]["flags"], "wrong_entries": errs, "expected": exp, "observed": obs})
+                                     {"flags": st["cs"]["flags"], "wrong_entries": errs, "realisation": real, "expected": exp, "observed": obs})
         chk.traces += chk.cases
     chk.tv(twin_groups(150 if chk.thorough else 24, chk.seed), "C19 twins")
-    chk.assumptions += ["'above' / 'aboveNeg' = wrong by +1.0 / -1.0, 'below' = wrong by 1e-7 (tolerance 1e-4); the band near the tolerance is don't-care",
+    chk.assumptions += ["'above' / 'aboveNeg' = wrong by +1.0 / -1.0, 'below' = wrong by 1e-7 (tolerance 1e-4), in half of the cases instead +-2.5e-4 on entries of size 2..9 at another start; the band near the tolerance is don't-care",
                         "well-scaled: second derivatives O(1), so forward-difference error ~1e-8 << 1e-4"]
     return chk.finish(rule="TLC explores the check order and column loop for every set of <= 2 wrong entries x magnitude class x flag "
                            "(all cases); each final verdict is replayed through Solver.solve on a problem with exactly those wrong entries "
